@@ -13,6 +13,8 @@ import sys
 import time
 
 ROOT = os.path.dirname(os.path.dirname(os.path.abspath(__file__)))
+# development aid (tools/mutate.py runs many trees in parallel): where evidence and replays are written
+OUT = os.environ.get("MC_OUT") or ROOT
 _perf = time.perf_counter
 
 
@@ -84,7 +86,7 @@ def main(argv=None) -> int:
             new.append((sig, vs))
 
     exit_code = 0
-    os.makedirs(os.path.join(ROOT, "replays"), exist_ok=True)
+    os.makedirs(os.path.join(OUT, "replays"), exist_ok=True)
     for k, n in known_hit:
         print(f"KNOWN-FINDING: property={pid} {k['what']} [{n} executions; signature={k['signature']}]")
     for sig, vs in new:
@@ -99,7 +101,7 @@ def main(argv=None) -> int:
                 f"HARNESS-ERROR: violation {sig!r} does not replay deterministically: {sigs}\n"
             )
             return 2
-        path = os.path.join(ROOT, "replays", f"{pid}-{explore.digest(sig)}.json")
+        path = os.path.join(OUT, "replays", f"{pid}-{explore.digest(sig)}.json")
         with open(path, "w") as f:
             json.dump(
                 dict(property=pid, signature=sig, what=v["what"], job=v["job"], detail=v.get("detail"),
@@ -142,8 +144,8 @@ def main(argv=None) -> int:
         wall_s=round(_perf() - t0, 2),
         violations=len(new),
     )
-    os.makedirs(os.path.join(ROOT, "evidence"), exist_ok=True)
-    with open(os.path.join(ROOT, "evidence", f"{pid}.json"), "w") as f:
+    os.makedirs(os.path.join(OUT, "evidence"), exist_ok=True)
+    with open(os.path.join(OUT, "evidence", f"{pid}.json"), "w") as f:
         json.dump(ev, f, indent=1, default=str, sort_keys=True)
     gaps = [p for p in getattr(mod, "EXPECTED_PHASES", {}).get(tier, []) if not acc.phases.get(p)]
     if gaps:
